@@ -197,10 +197,16 @@ def build_uod(h: "EngineHarness", hw: HardwareLayerBase):
     Valve: <Open|Closed>          regex-categorical argument
     Bad[: x]        argument parser returns None (invalid arguments)
     Boom            exec function raises
+    Open1 / Open2   no argument; set Out1=7.0 / Out2=8.0 (user-issued output commands)
     """
 
     def log(cmd: UodCommand, phase: str, args=None):
         h.events.append((h.tick_no, "cmd", cmd.name, cmd.instance_id, phase, args, cmd.get_iteration_count()))
+
+    def _out(cmd: UodCommand, tag: str, value):
+        """a command callback sets an output tag (logged: the ground truth of 'commanded' output values)"""
+        h.events.append((h.tick_no, "out_set", tag, value, cmd.name, cmd.instance_id))
+        cmd.context.tags[tag].set_value(value, VT.now)
 
     def mk_init(cmd):
         log(cmd, "init")
@@ -216,7 +222,7 @@ def build_uod(h: "EngineHarness", hw: HardwareLayerBase):
         n = int(float(value))
         it = cmd.get_iteration_count()
         log(cmd, "exec", value)
-        cmd.context.tags["Out1"].set_value(float(100 * n + it), VT.now)
+        _out(cmd, "Out1", float(100 * n + it))
         cmd.set_progress(min(1.0, (it + 1) / max(n, 1)))
         if it >= n - 1:
             cmd.set_complete()
@@ -226,7 +232,7 @@ def build_uod(h: "EngineHarness", hw: HardwareLayerBase):
             n = int(float(value))
             it = cmd.get_iteration_count()
             log(cmd, "exec", value)
-            cmd.context.tags["Out2"].set_value(float(10 * n + it) + off, VT.now)
+            _out(cmd, "Out2", float(10 * n + it) + off)
             if it >= n - 1:
                 cmd.set_complete()
         return f
@@ -234,13 +240,20 @@ def build_uod(h: "EngineHarness", hw: HardwareLayerBase):
     def setter(tag):
         def f(cmd: UodCommand, value):
             log(cmd, "exec", value)
-            cmd.context.tags[tag].set_value(float(value), VT.now)
+            _out(cmd, tag, float(value))
+            cmd.set_complete()
+        return f
+
+    def opener(tag, v):
+        def f(cmd: UodCommand):
+            log(cmd, "exec", "")
+            _out(cmd, tag, v)
             cmd.set_complete()
         return f
 
     def flow(cmd: UodCommand, number, number_unit):
         log(cmd, "exec", "%s %s" % (number, number_unit))
-        cmd.context.tags["Out3"].set_value(float(number), VT.now)
+        _out(cmd, "Out3", float(number))
         cmd.set_complete()
 
     def valve(cmd: UodCommand, option):
@@ -287,12 +300,15 @@ def build_uod(h: "EngineHarness", hw: HardwareLayerBase):
                                    exec_fn=valve, init_fn=mk_init, finalize_fn=mk_final)
     b.with_command(name="Bad", exec_fn=bad, init_fn=mk_init, finalize_fn=mk_final, arg_parse_fn=lambda a: None)
     b.with_command(name="Boom", exec_fn=boom, init_fn=mk_init, finalize_fn=mk_final)
+    # argument-less commands a user can issue directly (execute_control_command_from_user), also while paused
+    b.with_command(name="Open1", exec_fn=opener("Out1", 7.0), init_fn=mk_init, finalize_fn=mk_final, arg_parse_fn=None)
+    b.with_command(name="Open2", exec_fn=opener("Out2", 8.0), init_fn=mk_init, finalize_fn=mk_final, arg_parse_fn=None)
     uod = b.build()
     uod.build_commands()
     return uod
 
 
-UOD_COMMANDS = ["Quick", "Slow", "OvA", "OvB", "Set1", "Set2", "Set3", "Flow", "Valve", "Bad", "Boom"]
+UOD_COMMANDS = ["Quick", "Slow", "OvA", "OvB", "Set1", "Set2", "Set3", "Flow", "Valve", "Bad", "Boom", "Open1", "Open2"]
 
 
 class TickObs:
